@@ -8,19 +8,19 @@ func init() {
 		Old: "\tm.storeState(s)\n\treturn nil\n}", New: "\tm.state.Store(s)\n\treturn nil\n}",
 		Expect: "registerService/&Mux.state/Store", Why: "publish with m.state.Store directly in registerService"})
 	control(&Control{ID: "cow2-no-lock", Rule: "COW-2", File: "larking/mux.go",
-		Old: "\t// Load the state for writing.\n\tm.mu.Lock()\n\tdefer m.mu.Unlock()\n\ts := m.loadState().clone()\n\n\tif err := s.addConnHandler",
-		New: "\t// Load the state for writing.\n\ts := m.loadState().clone()\n\n\tif err := s.addConnHandler",
+		Old:    "\t// Load the state for writing.\n\tm.mu.Lock()\n\tdefer m.mu.Unlock()\n\ts := m.loadState().clone()\n\n\tif err := s.addConnHandler",
+		New:    "\t// Load the state for writing.\n\ts := m.loadState().clone()\n\n\tif err := s.addConnHandler",
 		Expect: "RegisterConn/lock", Why: "delete Lock/Unlock in RegisterConn"})
 	control(&Control{ID: "cow2-late-lock", Rule: "COW-2", File: "larking/handler.go",
-		Old: "\tm.mu.Lock()\n\tdefer m.mu.Unlock()\n\ts := m.loadState().clone()\n",
-		New: "\ts := m.loadState().clone()\n\tm.mu.Lock()\n\tdefer m.mu.Unlock()\n",
+		Old:    "\tm.mu.Lock()\n\tdefer m.mu.Unlock()\n\ts := m.loadState().clone()\n",
+		New:    "\ts := m.loadState().clone()\n\tm.mu.Lock()\n\tdefer m.mu.Unlock()\n",
 		Expect: "registerService/locked:(*Mux).loadState", Why: "clone the snapshot before taking the lock in registerService"})
 	control(&Control{ID: "cow3-no-clone", Rule: "COW-3", File: "larking/handler.go",
 		Old: "\ts := m.loadState().clone()\n\n\td, err := m.opts.files", New: "\ts := m.loadState()\n\n\td, err := m.opts.files",
 		Expect: "registerService/", Why: "registerService mutates the loaded snapshot itself (no clone)"})
 	control(&Control{ID: "cow4-memoise-in-search", Rule: "COW-4", File: "larking/rules.go",
-		Old: "\t\tif m := p.methodAll; m != nil {\n\t\t\treturn m, nil, nil\n\t\t}",
-		New: "\t\tif m := p.methodAll; m != nil {\n\t\t\tp.methods[verb] = m\n\t\t\treturn m, nil, nil\n\t\t}",
+		Old:    "\t\tif m := p.methodAll; m != nil {\n\t\t\treturn m, nil, nil\n\t\t}",
+		New:    "\t\tif m := p.methodAll; m != nil {\n\t\t\tp.methods[verb] = m\n\t\t\treturn m, nil, nil\n\t\t}",
 		Expect: "(*path).search/writes:path.methods", Why: "memoise the '*' binding into p.methods during search"})
 	control(&Control{ID: "cow5-share-segments", Rule: "COW-5", File: "larking/rules.go",
 		Old: "\t\tpc.segments[k] = s.clone()", New: "\t\tpc.segments[k] = s",
@@ -29,8 +29,8 @@ func init() {
 		Old: "\t\tconns:    conns,\n\t\thandlers: handlers,\n\t}", New: "\t\tconns:    conns,\n\t\thandlers: s.handlers,\n\t}",
 		Expect: "(*state).clone/shares:state.handlers", Why: "state.clone shares the handlers map"})
 	control(&Control{ID: "cow5-share-variables", Rule: "COW-5", File: "larking/rules.go",
-		Old: "\tpc.variables = make(variables, len(p.variables))\n\tfor i, v := range p.variables {\n\t\tpc.variables[i] = &variable{\n\t\t\tname: v.name, // RO\n\t\t\ttoks: v.toks, // RO\n\t\t\tnext: v.next.clone(),\n\t\t}\n\t}",
-		New: "\tpc.variables = p.variables",
+		Old:    "\tpc.variables = make(variables, len(p.variables))\n\tfor i, v := range p.variables {\n\t\tpc.variables[i] = &variable{\n\t\t\tname: v.name, // RO\n\t\t\ttoks: v.toks, // RO\n\t\t\tnext: v.next.clone(),\n\t\t}\n\t}",
+		New:    "\tpc.variables = p.variables",
 		Expect: "(*path).clone/shares:path.variables", Why: "path.clone shares the variables slice"})
 	control(&Control{ID: "cow5-drop-methodAll", Rule: "COW-5", File: "larking/rules.go",
 		Old: "\tpc.methodAll = p.methodAll\n", New: "",
@@ -48,8 +48,8 @@ func init() {
 		Old: "\tcontentEncoding := r.Header.Get(\"Content-Encoding\")\n", New: "\tcontentEncoding := r.Header.Get(\"Content-Encoding\")\n\tm.opts.maxReceiveMessageSize = int(r.ContentLength)\n",
 		Expect: "serveHTTP/writes:muxOptions.maxReceiveMessageSize", Why: "serveHTTP adjusts the shared receive limit per request"})
 	control(&Control{ID: "optsro-codec-cache", Rule: "OPTS-RO", File: "larking/http.go",
-		Old: "\tcodecType = mediaType\n\tif c, ok := s.opts.codecs[codecType]; ok {\n\t\treturn c, nil\n\t}",
-		New: "\tcodecType = mediaType\n\tif c, ok := s.opts.codecs[codecType]; ok {\n\t\ts.opts.codecs[string(cur.Descriptor().FullName())] = c\n\t\treturn c, nil\n\t}",
+		Old:    "\tcodecType = mediaType\n\tif c, ok := s.opts.codecs[codecType]; ok {\n\t\treturn c, nil\n\t}",
+		New:    "\tcodecType = mediaType\n\tif c, ok := s.opts.codecs[codecType]; ok {\n\t\ts.opts.codecs[string(cur.Descriptor().FullName())] = c\n\t\treturn c, nil\n\t}",
 		Expect: "getCodec/writes:muxOptions.codecs", Why: "getCodec caches into the shared codecs map"})
 	// ---- C11 ----
 	control(&Control{ID: "wp-drop-store-registerconn", Rule: "WRITER-PUBLISHES", File: "larking/mux.go",
